@@ -134,6 +134,9 @@ def corpus(rng, b=0):
     pairs += ["[%sH%d]" % (rng.choice(("C", "N", "Si", "P", "S", "B", "Ge")), rng.randint(1, 4)) for _ in range(4)]
     feats = rng.sample(DEC_FEATURES, rng.randint(2, 4))
     weights = [rng.choice((1, 2, 4)) for _ in feats]
+    if b % 2 == 1 and not ({"multi_index", "big_ring"} & set(feats)):
+        feats.append(rng.choice(("multi_index", "big_ring")))     # multi-symbol indices in every other batch
+        weights.append(4)
     if "organic" not in feats:
         feats.append("organic")
         weights.append(2)
@@ -170,9 +173,19 @@ def corpus(rng, b=0):
         m = stubs.gen_mol(rng, K, rng.choice((6, 10, 14))) if rng.random() < 0.6 else stubs.gen_aromatic_mol(rng, K)
         smi.append(m.smiles(rng))
     p_dec = {"kekulize": 0.15, "decode": 1.0}.get(theme, rng.choice((0.3, 0.5, 0.6, 0.9)))
+    deep = (b % 40 == 5) if procs.TIER == "quick" else (b % 8 == 5)
+    if deep:
+        # nesting far beyond the interpreter's recursion limit: every such call raises RecursionError
+        # when run alone on the current tree; process-global interpreter settings that a change
+        # toggles around its own recursion are then visible as a difference between threads
+        n = rng.choice((1150, 1300))
+        smi[0] = "C(" * n + "C" + ")C" * n
+        smi[1] = "N(" * (n + 100) + "C" + ")O" * (n + 100)
+        dec[2] = "[C]" + "[Branch1][P][C]" * (n + 100)
+        p_dec = 0.4
     if flood:
         p_dec = max(p_dec, 0.8)
-    info = {"features": feats, "smiles_theme": theme, "flood": flood, "p_dec": p_dec}
+    info = {"features": feats, "smiles_theme": theme, "flood": flood, "p_dec": p_dec, "deep": deep}
     return dec, smi, info
 
 
@@ -209,6 +222,9 @@ def gen_spec(base_seed, i, W):
                 call = ("decode", x, rng.random() < 0.08, rng.random() < 0.3)
             else:
                 call = ("encode", rng.choice(smi), rng.random() < 0.6, rng.random() < 0.3)
+            if info["deep"] and j == 0 and rng.random() < 0.6 and (procs.TIER != "quick" or i % 16 < 4):
+                call = rng.choice((("encode", smi[0], False, False), ("encode", smi[1], rng.random() < 0.5, False),
+                                   ("decode", dec[2], False, False)))
             if shared_first and j == 0:
                 if first is None:
                     first = call
@@ -228,6 +244,8 @@ def gen_spec(base_seed, i, W):
         d = rng.choice((1, 2, 3))
         policy["change_points"] = sorted(rng.randrange(1, max(2, total)) for _ in range(d))
     else:
+        if kind == "window" and rng.random() < 0.5:
+            policy["salt"] = rng.randrange(1 << 20)
         policy["p"] = rng.choice((0.25, 1 / 8, 1 / 32, 1 / 128, 1 / 512))
         # bound the expected number of context switches per run (they dominate the cost): ~4000
         cap = (4000.0 if kind == "random" else 250.0) / max(total, 1)
@@ -291,7 +309,7 @@ def run_one(base_seed, i, want_sample=False):
         "nontrivial": bool(rec["overlap"] and rec["window_switches"]),
         "probes": {"overlap": rec["overlap"], "window_switches": rec["window_switches"],
                    "policy:" + spec["policy"]["kind"] + ":" + spec["policy"]["gran"]: 1,
-                   "threads:%d" % len(spec["threads"]): 1, "theme:" + spec["theme"]: 1, "flood_runs": 1 if spec["info"]["flood"] else 0,
+                   "threads:%d" % len(spec["threads"]): 1, "theme:" + spec["theme"]: 1, "flood_runs": 1 if spec["info"]["flood"] else 0, "deep_nesting_runs": 1 if spec["info"]["deep"] else 0,
                    **{"feature:" + f: 1 for f in spec["info"]["features"]},
                    "fault_failing_call_in_a_thread": sum(1 for r in rec["results"] for x in r if x and x[0] == "err"),
                    "double_miss_runs": 1 if rec["double_miss"] else 0,
